@@ -67,7 +67,7 @@ def encoding(codec, tok):
     raise ValueError(codec)
 
 
-ENTRY = re.compile(r"^([^\[]+)\[([^\]]*)\]=(\w+)/([E-])([F-])$")
+ENTRY = re.compile(r"^([^\[]+)\[([^\]]*)\]=(\w+)/([E-])([F-])([R-])$")
 
 
 def why(case, impl):
@@ -115,7 +115,7 @@ def why(case, impl):
                 return "ready-below-hw"
             if full and (not evs or (res == "ok" and ff)):
                 return "ready-no-backpressure"
-        if fe != (pos == len(exp)) or ff != (len(exp) - pos >= HW):
+        if fe != (pos == len(exp)) or ff != (len(exp) - pos >= HW) or (m.group(6) == "R") == ff:
             return "buffer-flags"
         full = ff
     if fin != blob(exp[pos:]):
